@@ -21,7 +21,7 @@ ID = "C18"
 RULE = ("one case = one fit() of a tiny model with (value sequence from {monotone, geometric, oscillating, constant, with exact "
         "zeros, plateau-then-jump, random}, patience 1..5, evaluator period x stopper period in {1,2,3}^2, tolerance in "
         "{0,1e-12,0.1,1,inf}, criterion in {relative, absolute, variance}, evaluator kind); thorough additionally enumerates all "
-        "sequences over a 4-value alphabet of length <= 6 for patience <= 2. Non-trivial: >= patience+1 evaluations happen (the "
+        "sequences over a 4-value alphabet of length <= 7 for patience <= 2. Non-trivial: >= patience+1 evaluations happen (the "
         "rule is consulted); distinct by (sequence, patience, periods, criterion, tolerance).")
 REQUIRED = ["fits", "decisions_compared", "stops_observed", "runs_to_completion", "criterion_relative", "criterion_absolute",
             "criterion_variance", "metric_evaluator_runs", "observable_evaluator_runs", "deprecated_class_runs",
@@ -35,7 +35,7 @@ REACH = [
     ("qucumber/callbacks/variance_based_early_stopping.py", r"criterion=\"variance\"", "deprecated class"),
     ("qucumber/callbacks/early_stopping.py", r"self\.last_epoch = epoch", "stop branch"),
 ]
-EXHAUSTIVE_NOTE = "thorough: all 4^L sequences (L<=6) over the alphabet {0, 1, 1.05, -1} for patience 1 and 2 and all three criteria"
+EXHAUSTIVE_NOTE = "thorough: all 4^L sequences (L<=7) over the alphabet {0, 1, 1.05, -1} for patience 1 and 2 and all three criteria"
 ASSUMPTIONS = ["the evaluator precedes the stopper in the callback list (documented usage)",
                "x/0 = inf for x != 0 (no stop); 0/0 is unspecified: either outcome is accepted and followed"]
 MIN_PER_WORKER = 20
@@ -65,7 +65,7 @@ def seq_of(rng, cls, L):
 def cases(tier, seed):
     out = []
     rng = np_rng(ID, seed, "cases")
-    n = 600 if tier == "quick" else 8000
+    n = 600 if tier == "quick" else 60000
     classes = ["monotone", "geometric", "oscillating", "constant", "zeros", "plateau", "random"]
     for i in range(n):
         L = int(rng.integers(2, 13))
@@ -79,7 +79,7 @@ def cases(tier, seed):
                     "cls": cls, "seed": seed})
     out.append({"t": "ctor", "seed": seed})
     if tier == "thorough":
-        for L in range(1, 7):
+        for L in range(1, 8):
             for vals in itertools.product(range(4), repeat=L):
                 for p in (1, 2):
                     for crit in CRITS:
